@@ -393,6 +393,9 @@ def run(ctx):
             "file %d cases; %d GetCertificate calls"
             % (s["path_cases"], s["path_loads"], s["path_skipped"], s["http_cases"], s["http_loads"], s["consul_cases"], s["consul_loads"],
                s["file_cases"], s["path_evals"] + s["http_evals"] + s["consul_evals"] + s["file_evals"]))
+    if s.get("source_reruns"):
+        ctx.log("real sources: %d histories disagreed once and were run again: %s"
+                % (s["source_reruns"], [n.get("msg", "")[:300] for n in r.of_kind("note")][:3]))
     ctx.take_failures(r, "c11")
     if s["path_skipped"] > s["path_cases"] // 10:
         ctx.inconclusive("real path source: %d of %d histories could not be stepped without letting the loader see a "
